@@ -78,6 +78,12 @@ def cases(tier, rng):
             for lag in ((0, 300, 1500) if thorough else (0, 300)):
                 line = "c17d %d %s %d" % (n, closer, lag)
                 cs.append({"line": line, "key": line, "model": False, "tags": {"carrier": "dns-ends", "n": n, "side": closer, "variant": "lag%d" % lag}})
+    # the same scenario thousands of times with several scheduler threads: a loss that needs a particular interleaving of the two ends'
+    # goroutines (the witness of the repaired a98efbe: about 1 run in 1500 lost the single octet) shows as a rate
+    for c, n, side, rounds in ([("tcp", 1, "target", 6000), ("tcp", 1, "app", 1500), ("tcp", 4097, "target", 500)]
+                               + ([("tcp", 1, "target", 60000), ("ws", 1, "target", 5000), ("tcp-starttls", 1, "target", 5000), ("tcp", 40000, "app", 2000)] if thorough else [])):
+        line = "c17soak %s %d %s %d 4" % (c, n, side, rounds)
+        cs.append({"line": line, "key": line, "model": False, "tags": {"carrier": c, "n": n, "side": side, "variant": "soak"}})
     cs += close_cases(tier, rng)
     return cs
 
@@ -486,6 +492,16 @@ def oracle(case, impl):
         if "first-half" in p or "second-half" in p:
             return [("premature-eof;" + t["variant"][10:], "a logical connection was ended although neither of its ends closed (%s): %s" % (t["variant"][10:], impl[:120]))]
         return []
+    if t.get("variant") == "soak":
+        f = dict(zip(p[0::2], p[1::2]))
+        out = []
+        if int(f["lost"]) > 0:
+            out.append(("data-lost-on-close;carrier=%s;closer=%s;soak" % (t["carrier"], t["side"]), "in %s of %s runs the octets written before the close did not all arrive, yet end-of-stream did (%s)" % (f["lost"], f["of"], case["line"])))
+        if int(f["noeof"]) > 0:
+            out.append(("no-eof;carrier=%s;closer=%s;soak" % (t["carrier"], t["side"]), "in %s of %s runs the other end did not see end-of-stream (%s)" % (f["noeof"], f["of"], case["line"])))
+        if int(f["failed"]) * 20 > int(f["of"]):
+            out.append(("crash;carrier=" + t["carrier"], "%s of %s runs could not be set up" % (f["failed"], f["of"])))
+        return out
     if t.get("variant") == "io":
         out = []
         if p[:3] != ["up", str(t["n"]), "-1"] or p[3:6] != ["down", str(t["n"]), "-1"]:
